@@ -406,6 +406,7 @@ let check_call (f : string) (a : sx list) : string option =
   | "mapmv", _, _ -> map_call mv_inst fn a
   | "mapor", _, _ -> map_call or_inst fn a
   | "mapmm", _, _ -> map_call (map_inst mv_inst) fn a
+  | "mapmo", _, _ -> map_call (map_inst or_inst) fn a
   (* ---- identifiers, glist, list *)
   | "ident", "cmp", [x; y; r] -> cmp (=) show_ord (Some (idcmp ncompare (ident_sx n_sx x) (ident_sx n_sx y))) (ord_sx r)
   | "ident", "eq", [x; y; r] -> cmpb (ident_sx n_sx x = ident_sx n_sx y) (bool_sx r)
@@ -578,6 +579,7 @@ let codec_of (name : string) : any_codec option =
   | "mapmv" -> Some (AC (codec_mapmv, cmap_sx mv_inst, cmap_eqb mv_dec))
   | "mapor" -> Some (AC (codec_mapor, cmap_sx or_inst, cmap_eqb orswot_dec))
   | "mapmm" -> let i = map_inst mv_inst in Some (AC (codec_mapmm, cmap_sx i, cmap_eqb i.v_dec))
+  | "mapmo" -> let i = map_inst or_inst in Some (AC (codec_mapmo, cmap_sx i, cmap_eqb i.v_dec))
   | "glist" -> Some (AC (codec_glist, glist_sx, (=)))
   | "list" -> Some (AC (codec_list, clist_sx, clist_eqb))
   | "merkle" -> Some (AC (merkle_codec, merkle_sx, merkle_eqb))
